@@ -209,3 +209,18 @@ claim(
     "fact under a 60 s per-case watchdog that reports the innermost library frame.",
     "Hypothesis model-based histories on real processes + exact Poisson-binomial test + metamorphic delay injection",
 )
+claim(
+    "C01",
+    "Generated-input search in two layers. Decisions: proposal laws from thousands of fresh samplers per configuration (first-evaluation trick; "
+    "plain, folded-at-zero and wall-reflected normal proposals by exact-null KS; ensemble proposals on the line through a partner walker with "
+    "stretch in [1/alpha, alpha] and law z^-1/2), and every accept/reject decision of short histories rebuilt from the trace of a recording posterior "
+    "with the MH probability the harness computes itself (uphill never rejected, e^-45 moves never accepted, exact Poisson-binomial test for the "
+    "rest; HMC: stored moves with impossible potential rise under unstable step sizes). Law: exact one-step experiments from stationarity - x0 "
+    "drawn exactly from pi^(1/T) (correlated / truncated Gaussians, exponential products, flat boxes, piecewise-constant cells), a fresh sampler per "
+    "replica, X1 = first proposal if the first attempt was accepted else x0 - tested by KS, exact chi-square of standardised squared distances and "
+    "cell chi-square over all five samplers, T, bounds, Gibbs limits, HMC mass kinds and step sizes near the stability limit.",
+    "Convergence is never established by generated search: what is decided is that the first MH attempt leaves pi^(1/T) invariant and that every "
+    "observed decision is the MH decision. The same experiment on the stored sample after a complete step demonstrates the redraw-on-rejection loops "
+    "(five open known findings, one per take_step / advance site).",
+    "Hypothesis PBT over configurations with exact i.i.d. statistical experiments and trace-reconstruction oracle",
+)
